@@ -4,12 +4,14 @@ import (
 	"encoding/json"
 	"fmt"
 	"io"
+	"strings"
 
 	smtp "github.com/emersion/go-smtp"
 
 	"verifharness/core"
 	"verifharness/rec"
 	"verifharness/ref"
+	"verifharness/wire"
 )
 
 // C01 — DATA body reaches the backend byte-exact after dot-unstuffing.
@@ -20,7 +22,9 @@ type c01Case struct {
 	Cuts    []int   `json:"cuts"` // cut offsets into Stream+"NOOP\r\n"
 	Plan    []int   `json:"plan"` // backend read-buffer sizes (cyclic)
 	Mode    srvMode `json:"mode"`
-	Glue    bool    `json:"glue"` // first body segment shares a segment with the DATA command
+	Glue    bool    `json:"glue"`  // first body segment shares a segment with the DATA command
+	Prior   string  `json:"prior"` // what happened on the connection before: "" | data | bdat | data+starttls | starttls
+	Early   bool    `json:"early"` // LMTP per-recipient backend sets the recipient's status before reading the message
 }
 
 func init() {
@@ -134,8 +138,14 @@ func c01Run(ctx *core.Ctx) {
 					}
 					plans = append(plans, []int{1 + r.Intn(4), 1 + r.Intn(7), 1 + r.Intn(2)})
 					for pi, plan := range plans {
-						emit(c01Case{Stream: st, StreamQ: fmt.Sprintf("%q", st), Cuts: cuts, Plan: plan, Mode: mode,
-							Glue: (int(idx)+ci+pi)%5 == 0})
+						cs := c01Case{Stream: st, StreamQ: fmt.Sprintf("%q", st), Cuts: cuts, Plan: plan, Mode: mode,
+							Glue: (int(idx)+ci+pi)%5 == 0}
+						if (int(idx)+ci+pi)%8 == 1 {
+							cs.Prior = []string{"data", "bdat", "data+starttls", "starttls"}[(int(idx)/8+ci+pi)%4]
+							cs.Glue = false
+						}
+						cs.Early = mode == modeLMTPRcpt && (int(idx)+ci+pi)%2 == 0
+						emit(cs)
 					}
 				}
 			}
@@ -194,13 +204,26 @@ func c01Exec(ctx *core.Ctx, c c01Case) {
 		ctx.Broken(fmt.Sprintf("C01 generator produced a stream that is not exactly one message: %q", c.Stream))
 		return
 	}
-	key := fmt.Sprintf("%q|%v|%v|%s|%v", c.Stream, c.Cuts, c.Plan, c.Mode, c.Glue)
+	key := fmt.Sprintf("%q|%v|%v|%s|%v|%s|%v", c.Stream, c.Cuts, c.Plan, c.Mode, c.Glue, c.Prior, c.Early)
 	ctx.Eval(key, c01Nontrivial(c.Stream[:len(c.Stream)-3]))
 
-	rig := newRig(c.Mode, nil)
+	rig := newRig(c.Mode, func(s *smtp.Server) {
+		if strings.Contains(c.Prior, "starttls") {
+			s.TLSConfig = wire.ServerTLS()
+		}
+	})
 	probed := false
 	probeN, probeErr := 0, error(nil)
+	nData := 0
 	rig.BE.H.Data = func(sess int, r *rec.Reader, st smtp.StatusCollector) error {
+		nData++
+		if (c.Prior == "data" || c.Prior == "bdat" || c.Prior == "data+starttls") && nData == 1 {
+			r.ReadAll(64) // the earlier message on this connection
+			return nil
+		}
+		if c.Early && st != nil {
+			st.SetStatus("r@x.test", nil)
+		}
 		r.ReadPlan(c.Plan)
 		if r.Term == io.EOF {
 			probed = true
@@ -209,7 +232,44 @@ func c01Exec(ctx *core.Ctx, c c01Case) {
 		return nil
 	}
 	p := rig.Dial()
+	nPrior := 0
+	if c.Prior != "" {
+		// history on the same connection before the message under test
+		var script string
+		switch c.Prior {
+		case "data", "data+starttls":
+			script = c.Mode.hello() + "\r\nMAIL FROM:<s0@x.test>\r\nRCPT TO:<r@x.test>\r\nDATA\r\nearlier message\r\n.\r\n"
+			nPrior = 6
+		case "bdat":
+			script = c.Mode.hello() + "\r\nMAIL FROM:<s0@x.test>\r\nRCPT TO:<r@x.test>\r\nBDAT 9 LAST\r\nearlier\r\n"
+			nPrior = 5
+		case "starttls":
+			script = c.Mode.hello() + "\r\n"
+			nPrior = 2
+		}
+		p.SendStr(script)
+		if _, err := expect(p, nPrior); err != nil {
+			p.Close()
+			rig.Finish()
+			ctx.Inconclusive("C01 prior history failed")
+			return
+		}
+		if strings.Contains(c.Prior, "starttls") {
+			r, err := p.Cmd("STARTTLS")
+			if err != nil || r.Code != 220 || p.StartTLSClient() != nil {
+				p.Close()
+				rig.Finish()
+				ctx.Inconclusive("C01 STARTTLS in prior history failed")
+				return
+			}
+			p.Raw.WaitPeerIdle(wire.Watchdog)
+		}
+	}
 	pre := []byte(c.Mode.hello() + "\r\nMAIL FROM:<s@x.test>\r\nRCPT TO:<r@x.test>\r\nDATA\r\n")
+	if c.Prior != "" && !strings.Contains(c.Prior, "starttls") {
+		// the greeting was already sent with the prior history: expect one reply fewer below
+		pre = []byte("RSET\r\nMAIL FROM:<s@x.test>\r\nRCPT TO:<r@x.test>\r\nDATA\r\n")
+	}
 	full := append(append([]byte{}, c.Stream...), "NOOP\r\n"...)
 	segs := core.Split(full, c.Cuts)
 	if c.Glue {
@@ -218,8 +278,12 @@ func c01Exec(ctx *core.Ctx, c c01Case) {
 	} else {
 		p.Send(pre)
 	}
-	head, err := expect(p, 5)
-	if err != nil || head[4].Code != 354 {
+	nHead := 5
+	if c.Prior != "" {
+		nHead = 4 // no connection greeting this time
+	}
+	head, err := expect(p, nHead)
+	if err != nil || head[len(head)-1].Code != 354 {
 		p.Close()
 		rig.Finish()
 		if isWatchdog(err) {
@@ -242,8 +306,11 @@ func c01Exec(ctx *core.Ctx, c c01Case) {
 	ctx.Add("backend_events", countBackendEvents(ev))
 	ctx.Add("replies_parsed", int64(len(head)+len(tail)))
 	des := dataEnds(ev)
+	if (c.Prior == "data" || c.Prior == "bdat" || c.Prior == "data+starttls") && len(des) >= 1 {
+		des = des[1:] // the earlier message
+	}
 	fail := func(sig, msg string) {
-		ctx.Violate(sig, msg+fmt.Sprintf(" [stream=%q cuts=%v plan=%v mode=%s glue=%v]", c.Stream, c.Cuts, c.Plan, c.Mode, c.Glue), c, witness(rig.Log, append(head, tail...)))
+		ctx.Violate(sig, msg+fmt.Sprintf(" [stream=%q cuts=%v plan=%v mode=%s glue=%v prior=%q early=%v]", c.Stream, c.Cuts, c.Plan, c.Mode, c.Glue, c.Prior, c.Early), c, witness(rig.Log, append(head, tail...)))
 	}
 	if len(des) != 1 {
 		fail("C01:data-calls", fmt.Sprintf("expected exactly one Data call, saw %d", len(des)))
